@@ -136,7 +136,7 @@ func runC01(c *Ctx) {
 		c.Out.Count("ser." + cs.Ser)
 		c.Out.Count("compress." + cs.Comp)
 		c.Out.Count(fmt.Sprintf("branches.%d", len(run.Branches)))
-		c.Out.Count("datasource." + w.DBName)
+		c.Out.Count("datasource." + w.DBName + w.Tag)
 		w.Eng.Exec("DELETE FROM undo_log")
 		w.Eng.DropTable(cs.Schema.Table) // thousands of tables make every catalogue query (and the meta refresher) quadratic
 		for _, cl := range cs.Classes {
